@@ -3,7 +3,8 @@
 
    usage: c04_lower <file.mir>
    Output: the library's own text of each function after link-time simplification, preceded by a
-   line `F <name>`; errors of the library are printed as `E <code> <format>` and end the run. */
+   line `F <name>`; errors of the library are printed as `E <code> <format>` and end the run.
+   Every import is resolved to a dummy address (nothing is executed). */
 #include <stdio.h>
 #include <stdlib.h>
 #include <string.h>
@@ -14,6 +15,9 @@ static MIR_NO_RETURN void err_func (MIR_error_type_t t, const char *fmt, ...) {
   fflush (stdout);
   exit (3);
 }
+
+static void dummy (void) {}
+static void *resolver (const char *name) { (void) name; return (void *) dummy; }
 
 int main (int argc, char **argv) {
   if (argc < 2) return 2;
@@ -29,7 +33,7 @@ int main (int argc, char **argv) {
   for (MIR_module_t m = DLIST_HEAD (MIR_module_t, *MIR_get_module_list (ctx)); m != NULL;
        m = DLIST_NEXT (MIR_module_t, m))
     MIR_load_module (ctx, m);
-  MIR_link (ctx, NULL, NULL);
+  MIR_link (ctx, NULL, resolver);
   for (MIR_module_t m = DLIST_HEAD (MIR_module_t, *MIR_get_module_list (ctx)); m != NULL;
        m = DLIST_NEXT (MIR_module_t, m))
     for (MIR_item_t it = DLIST_HEAD (MIR_item_t, m->items); it != NULL; it = DLIST_NEXT (MIR_item_t, it))
